@@ -91,7 +91,7 @@ pub(crate) mod __verif_tuple_key2 {
         core::mem::forget(v);
         n
     }
-    //@ H kind=bounded tier=quick timeout=1500 bound="byte strings of length <= 2 on each side (all byte values)" oblig="tuple_key2::encode_bytes::order+prefix-free"
+    //@ H kind=bounded tier=experimental timeout=7200 bound="byte strings of length <= 2 on each side (all byte values)" oblig="tuple_key2::encode_bytes::order+prefix-free (compiled crate; unbounded proof is the Verus unit)"
     #[kani::proof]
     #[kani::unwind(10)]
     fn bytes_order_prefixfree() {
@@ -107,7 +107,7 @@ pub(crate) mod __verif_tuple_key2 {
         kani::cover!(na > 0 && a[0] == 0);
     }
 
-    //@ H kind=bounded tier=quick timeout=1500 bound="byte strings of length <= 2 (all byte values)" oblig="tuple_key2::encode_bytes+TupleKeyParser::bytes::roundtrip"
+    //@ H kind=bounded tier=thorough timeout=7200 bound="byte strings of length <= 2 (all byte values)" oblig="tuple_key2::encode_bytes+TupleKeyParser::bytes::roundtrip (compiled crate; unbounded proof is the Verus unit)"
     #[kani::proof]
     #[kani::unwind(10)]
     fn bytes_roundtrip() {
